@@ -14,6 +14,7 @@ pub mod extract;
 pub mod gate;
 pub mod generate;
 pub mod graph;
+pub mod json;
 pub mod linalg;
 pub mod openqasm;
 pub mod phase;
